@@ -6,7 +6,7 @@ use vcore::Ctx;
 fn main() {
     let mut ctx = Ctx::init("C02");
     ctx.rule(
-        "Cases are the C01 operation histories; the judged operations are lower_bound(l, pred) and lower_bound_rev(r, pred) with an \
+        "Cases are the C01 operation histories (sizes 1..=130 and a class of large trees up to 2^12 quick / 2^16 thorough); the judged operations are lower_bound(l, pred) and lower_bound_rev(r, pred) with an \
          instrumented predicate from a family that is verified monotone on the model before use (const-true, const-false, sum>=t, \
          min<=t, max>=t, len>=k, contains c; thresholds taken from the model's own prefix folds +-1). Oracle: the result equals the \
          brute-force first (last) index, None iff none; every aggregate shown to the predicate equals the in-order model fold of some \
